@@ -1077,6 +1077,14 @@ class VM:
 
         return False
 
+    @staticmethod
+    def _array_index(key_str: str) -> int:
+        """The element index a property name denotes, -1 if it is not one: only the
+        canonical decimal text of a non-negative integer ("1", not "01", " 1", "+1")."""
+        if key_str.isascii() and key_str.isdigit() and (key_str == "0" or key_str[0] != "0"):
+            return int(key_str)
+        return -1
+
     def _to_property_key(self, key: JSValue) -> str:
         """ToPropertyKey: the property name a key value stands for (a plain object is
         converted with ToPrimitive, hint string, so its own toString is honoured)."""
@@ -1100,12 +1108,9 @@ class VM:
 
         if isinstance(obj, JSTypedArray):
             # Typed array index access
-            try:
-                idx = int(key_str)
-                if idx >= 0:
-                    return obj.get_index(idx)
-            except ValueError:
-                pass
+            idx = self._array_index(key_str)
+            if idx >= 0:
+                return obj.get_index(idx)
             if key_str == "length":
                 return obj.length
             if key_str == "BYTES_PER_ELEMENT":
@@ -1121,12 +1126,9 @@ class VM:
 
         if isinstance(obj, JSArray):
             # Array index access
-            try:
-                idx = int(key_str)
-                if idx >= 0:
-                    return obj.get_index(idx)
-            except ValueError:
-                pass
+            idx = self._array_index(key_str)
+            if idx >= 0:
+                return obj.get_index(idx)
             if key_str == "length":
                 return obj.length
             # Built-in array methods
@@ -1209,12 +1211,9 @@ class VM:
 
         if isinstance(obj, str):
             # String character access
-            try:
-                idx = int(key_str)
-                if 0 <= idx < len(obj):
-                    return obj[idx]
-            except ValueError:
-                pass
+            idx = self._array_index(key_str)
+            if 0 <= idx < len(obj):
+                return obj[idx]
             if key_str == "length":
                 return len(obj)
             # String methods
@@ -2411,13 +2410,10 @@ class VM:
             return
 
         if isinstance(obj, JSTypedArray):
-            try:
-                idx = int(key_str)
-                if idx >= 0:
-                    obj.set_index(idx, value)
-                    return
-            except ValueError:
-                pass
+            idx = self._array_index(key_str)
+            if idx >= 0:
+                obj.set_index(idx, value)
+                return
             obj.set(key_str, value)
             return
 
